@@ -85,6 +85,8 @@ func DecodedBitStreamParser_decode(bytes []byte) (*common.DecoderResult, error) 
 
 	for mode != Mode_PDA_ENCODE && bits.Available() > 0 {
 		var e error
+		segmentStart := len(result)
+		segmentMode := mode
 		if mode == Mode_ASCII_ENCODE {
 			mode, result, resultTrailer, e = decodeAsciiSegment(bits, result, resultTrailer, fnc1Positions)
 		} else {
@@ -108,6 +110,11 @@ func DecodedBitStreamParser_decode(bytes []byte) (*common.DecoderResult, error) 
 		}
 		if e != nil {
 			return nil, e
+		}
+		if segmentMode != Mode_BASE256_ENCODE {
+			// the segment decoders emit ISO-8859-1 bytes (upper shift gives 128..255);
+			// the result text is UTF-8 like the Base 256 segments
+			result = latin1ToUTF8(result, segmentStart)
 		}
 	}
 	if len(resultTrailer) > 0 {
@@ -138,6 +145,30 @@ func DecodedBitStreamParser_decode(bytes []byte) (*common.DecoderResult, error) 
 	}
 
 	return common.NewDecoderResultWithSymbologyModifier(bytes, string(result), byteSegments, "", symbologyModifier), nil
+}
+
+// latin1ToUTF8 re-encodes result[start:] from ISO-8859-1 to UTF-8 in place.
+func latin1ToUTF8(result []byte, start int) []byte {
+	extended := false
+	for _, b := range result[start:] {
+		if b >= 0x80 {
+			extended = true
+			break
+		}
+	}
+	if !extended {
+		return result
+	}
+	tail := append([]byte(nil), result[start:]...)
+	result = result[:start]
+	for _, b := range tail {
+		if b < 0x80 {
+			result = append(result, b)
+		} else {
+			result = append(result, 0xC0|b>>6, 0x80|b&0x3F)
+		}
+	}
+	return result
 }
 
 // decodeAsciiSegment See ISO 16022:2006, 5.2.3 and Annex C, Table C.2
